@@ -296,10 +296,28 @@ def bool_index_sites(fn):
     return res
 
 
+def const_arith_sites(fn):
+    """Overflow checks of an operation on two constants (named constants added up, `BASE + 1`): the compiler evaluates them, a
+    failing one would be a compile error (`arithmetic_overflow` is deny-by-default)."""
+    out = set()
+    for bb in fn.reachable():
+        t = fn.term(bb)
+        if t["k"] != "assert" or t.get("msg") != "Overflow":
+            continue
+        c = t.get("cond", {}).get("p", {})
+        for st in reversed(fn.blocks[bb]["stmts"]):
+            if st["k"] == "assign" and st["p"]["l"] == c.get("l") and not st["p"]["pj"]:
+                rv = st["rv"]
+                if rv["k"] == "binop" and str(rv.get("op", "")).endswith("WithOverflow") and rv["a"]["k"] == "const" and rv["b"]["k"] == "const":
+                    out.add(bb)
+                break
+    return out
+
+
 def sites(fn):
     out = []
     guarded = guarded_subtractions(fn.facts, fn) if hasattr(fn, "facts") and fn.facts is not None else set()
-    guarded = set(guarded) | index_loop_sites(fn) | bool_index_sites(fn)
+    guarded = set(guarded) | index_loop_sites(fn) | bool_index_sites(fn) | const_arith_sites(fn)
     if hasattr(fn, "facts") and fn.facts is not None:
         guarded |= guarded_indexings(fn.facts, fn)
     for bb in sorted(fn.reachable()):
@@ -330,6 +348,10 @@ def owner_names(F, fn):
         if cand:
             base = cand[0]
     if S.is_unknown_helper(base):
+        from .common import helper_is_body_of
+        bo_ = helper_is_body_of(F, base)
+        if bo_:
+            return sorted({k_.name for k_ in bo_})      # the body of a known function moved into a helper: accounted there
         os_ = sorted({re.sub(r"(::\{closure#\d+\})+$", "", o.name) for o, _ in owners(F, base)})
         return os_          # [] for a helper nobody calls
     return [name]
